@@ -123,6 +123,7 @@ class Outcome:
         self.unspec: T.Set[str] = set()
         self.subenvs: T.Dict[str, T.Tuple[T.Dict[str, T.Any], T.Set[str]]] = {}
         self.steps = 0
+        self.flags: T.Set[str] = set()    # documented behaviours met on the way that are known to be broken in the tool
 
     def __repr__(self) -> str:
         return f'Outcome({self.kind}, reason={self.reason!r}, trace={self.trace!r}, prefix_lens={self.prefix_lens})'
@@ -657,6 +658,7 @@ class Evaluator:
         self.syntax_load_prefix: T.List[T.Tuple[str, int]] = []   # (file, trace length when it was loaded)
         self.cur_file = 'meson.build'
         self.subprojects: T.Dict[str, SubprojectVal] = {}
+        self.tern_arm_depth = 0
 
     # -- driver ------------------------------------------------------------------------------
     def run(self) -> Outcome:
@@ -720,6 +722,22 @@ class Evaluator:
             self.stmt(s)
 
     def stmt(self, s: list) -> None:
+        try:
+            self._stmt(s)
+        except MesonError as e:
+            k = s[0]
+            heads: T.List[list] = []
+            if k == 'expr':
+                heads = [x for _, x in s[1][2]] if s[1][0] == 'call' else [s[1]]
+            elif k in ('assign', 'plusassign'):
+                heads = [s[2]]
+            if any(_has_effect_call(h) for h in heads) and not (e.why == 'void used as a value' and self.in_expr_msgs == 1):
+                # an effectful call sits inside an expression next to another fault: which one is met
+                # first depends on an evaluation order the documentation does not fix
+                raise Undefined('evaluation order inside one expression would be observable')
+            raise
+
+    def _stmt(self, s: list) -> None:
         self.tick()
         self.in_expr_msgs = 0
         k = s[0]
@@ -826,7 +844,7 @@ class Evaluator:
             if name in self.unspec:
                 raise Undefined('loop variable read after its loop')
             return self.env[name]
-        raise MesonError(f'unknown variable {name}')
+        raise MesonError('unknown variable')
 
     def eval(self, e: list, allow_void: bool = False, stmt_level: bool = False) -> T.Any:
         self.tick()
@@ -893,10 +911,16 @@ class Evaluator:
             r = self.eval(e[3])
             return self.binop(op, l, r)
         if k == 'tern':
+            if self.tern_arm_depth:
+                raise MesonError('ternary inside a ternary', 'syntax')
             c = self.eval(e[1])
             if tname(c) != 'bool':
                 raise MesonError('ternary condition is not a boolean')
-            return self.eval(e[2] if c else e[3])
+            self.tern_arm_depth += 1
+            try:
+                return self.eval(e[2] if c else e[3])
+            finally:
+                self.tern_arm_depth -= 1
         if k == 'idx':
             o = self.eval(e[1])
             i = self.eval(e[2])
@@ -1007,6 +1031,7 @@ class Evaluator:
                 if tl == 'str':
                     res = l in r
                 elif tl == 'int':
+                    self.out.flags.add('int-in-dict')
                     res = False       # Syntax.md Dictionaries: "if 42 in my_dict # This condition is false"
                 else:
                     raise Undefined('non-string, non-integer needle searched in a dictionary')
@@ -1248,6 +1273,8 @@ class Evaluator:
             return sp
         if fname == 'project':
             raise Undefined('project() anywhere but first')
+        if fname.startswith('zz'):
+            raise MesonError('unknown function')
         raise Undefined(f'function {fname} is outside the modelled core')
 
     # -- methods
@@ -1256,7 +1283,7 @@ class Evaluator:
         fn = getattr(self, f'm_{t}_{name}', None)
         if fn is None:
             if t in ('int', 'bool', 'str', 'arr', 'dict') and name.startswith('zz'):
-                raise MesonError(f'unknown method {name}')
+                raise MesonError('unknown method')
             raise Undefined(f'method {t}.{name} is outside the modelled core')
         return fn(o, pos, kw)
 
@@ -1405,7 +1432,7 @@ class Evaluator:
 
     def m_str_splitlines(self, s: str, pos: T.List[T.Any], kw: T.Dict[str, T.Any]) -> T.List[str]:
         self._sig(pos, kw, [])
-        if any(c in '\x0b\x0c\x1c\x1d\x1e\x85  ' for c in s):
+        if any(c in '\x0b\x0c\x1c\x1d\x1e\x85\u2028\u2029' for c in s):
             raise Undefined('splitlines() with separators other than \\n, \\r, \\r\\n')
         out, cur, i = [], '', 0
         while i < len(s):
@@ -1514,6 +1541,8 @@ class Evaluator:
         if len(pos) == 1:
             raise MesonError('bool.to_string with exactly one argument')
         if len(pos) == 2:
+            if pos[0] == '' or pos[1] == '':
+                self.out.flags.add('bool-to_string-empty')
             return pos[0] if b else pos[1]
         return 'true' if b else 'false'
 
@@ -1703,13 +1732,40 @@ def _walk_stmts(stmts: T.List[list], fn: T.Callable[[list], bool], in_loop: bool
     return False
 
 
+_EFFECT_CALLS = ('message', 'set_variable', 'unset_variable', 'subdir', 'assert', 'subproject')
+
+
+def _has_effect_call(e: list) -> bool:
+    k = e[0]
+    if k in ('int', 'bool', 'str', 'id'):
+        return False
+    if k == 'call':
+        return e[1] in _EFFECT_CALLS or any(_has_effect_call(x) for _, x in e[2])
+    if k == 'meth':
+        return _has_effect_call(e[1]) or any(_has_effect_call(x) for _, x in e[3])
+    if k in ('not', 'neg', 'paren', 'bare'):
+        return _has_effect_call(e[1])
+    if k == 'bin':
+        return _has_effect_call(e[2]) or _has_effect_call(e[3])
+    if k == 'tern':
+        return any(_has_effect_call(x) for x in e[1:4])
+    if k == 'idx':
+        return _has_effect_call(e[1]) or _has_effect_call(e[2])
+    if k == 'arr':
+        return any(_has_effect_call(x) for x in e[1])
+    if k == 'dict':
+        return any(_has_effect_call(a) or _has_effect_call(b) for a, b in e[1])
+    if k in ('assign', 'plusassign'):
+        return _has_effect_call(e[2])
+    raise AssertionError(k)
+
+
 def file_has_syntax_fault(stmts: T.List[list]) -> bool:
     return _walk_stmts(stmts, lambda e: _expr_has_fault(e, False))
 
 
 def program_has_tern_in_cond(prog: dict) -> bool:
-    return any(_walk_stmts(st, lambda e: e[0] != 'bare' and _tern_in_cond(e) or (e[0] == 'bare' and e[1][0] != 'id' and _tern_in_cond(e)))
-               for st in prog['files'].values())
+    return any(_walk_stmts(st, _tern_in_cond) for st in prog['files'].values())
 
 
 def evaluate(prog: dict) -> Outcome:
@@ -1752,7 +1808,7 @@ def lex(text: str) -> T.List[Tok]:
     i, n = 0, len(text)
     line = 1
     depth = 0
-    if text.startswith('﻿'):
+    if text.startswith('\ufeff'):
         raise ParseError('byte order mark', 0, 1)
     while i < n:
         c = text[i]
